@@ -26,7 +26,7 @@ def derive(src, rec, out, k, alter=False):
     from dclab.rtdc_dataset import RTDCWriter
     sel = [i - 1 for i in rec["sel"]]
     feats = ["deform"] + (["area_um"] if rec["own"] else [])
-    if rec["how"] in ("export", "child"):
+    if rec["how"] in ("export", "child", "grandchild"):
         with dclab.new_dataset(src) as ds:
             m = np.zeros(len(ds), dtype=bool)
             m[sel] = True
@@ -35,10 +35,27 @@ def derive(src, rec, out, k, alter=False):
             if rec["how"] == "export":
                 ds.export.hdf5(out, features=feats, filtered=True,
                                basins=True)
-            else:
+            elif rec["how"] == "child":
                 ch = dclab.new_dataset(ds)
                 ch.export.hdf5(out, features=feats, filtered=False,
                                basins=True)
+            else:
+                # two hierarchy levels: the first child drops everything
+                # before the first selected event, the grandchild keeps
+                # exactly the selection
+                m1 = np.zeros(len(ds), dtype=bool)
+                m1[min(sel):] = True
+                ds.filter.manual[:] = m1
+                ds.apply_filter()
+                ch = dclab.new_dataset(ds)
+                keep = [i - min(sel) for i in sel]
+                m2 = np.zeros(len(ch), dtype=bool)
+                m2[keep] = True
+                ch.filter.manual[:] = m2
+                ch.apply_filter()
+                gch = dclab.new_dataset(ch)
+                gch.export.hdf5(out, features=feats, filtered=False,
+                                basins=True)
     else:
         with dclab.new_dataset(src) as ds:
             rid = ds.get_measurement_identifier()
